@@ -69,7 +69,7 @@ class Sim {
   int exit_code = 0;
   bool step_budget_exceeded = false;
   bool tainted = false;          // a run was abandoned asynchronously (CPU budget) or exited inside a signal handler: the worker retires after reporting it
-  double cpu_budget_s = 20.0;    // user CPU seconds one simulated run may burn before it counts as a hang
+  double cpu_budget_s = 10.0;    // user CPU seconds one simulated run may burn before it counts as a hang
   int signals_delivered = 0;
   int in_signal = 0;         // nesting depth of simulated signal delivery
 
